@@ -146,17 +146,22 @@ func (mw *Middleware) Wrap(next dnsserver.Handler) (wrapped dnsserver.Handler) {
 		ri := mw.newRequestInfo(ctx, req, rw.LocalAddr(), raddr)
 		defer mw.pool.Put(ri)
 
+		ri.Location, ri.ECS = loc, ecs
+
+		// NOTE:  Check the access before the device result is handled, since a
+		// failed device lookup is reported as an error, which the server turns
+		// into a SERVFAIL response, and blocked clients and names must not
+		// receive any response at all.  Only the global access settings apply
+		// when there is no profile.
+		if mw.isBlockedByAccess(ctx, ri, req, raddr) {
+			return nil
+		}
+
 		cont, err := mw.handleDeviceResult(ctx, ri.DeviceResult)
 		if !cont {
 			// Don't wrap the error, because this is the main flow, and there is
 			// already [errors.Annotate] here.
 			return err
-		}
-
-		ri.Location, ri.ECS = loc, ecs
-
-		if mw.isBlockedByAccess(ctx, ri, req, raddr) {
-			return nil
 		}
 
 		if locErr != nil {
